@@ -142,11 +142,13 @@ package core
 //@   modifies core.currentDirective.BodyCoords
 //@   ensures core.currentDirective.BodyCoords.file == lexeme.file && core.currentDirective.BodyCoords.begin == lexeme.begin && core.currentDirective.BodyCoords.end == lexeme.end
 
+// dtOf(keyword): the directive kind a keyword text stands for (NewDirectiveType is a pure function of its argument)
+//@ specfn dtOf(s string) int
 // NewDirectiveType reads the keyword table (written once under sync.Once); assumed: a successful lookup yields a directive kind
 //@ func directive.NewDirectiveType
 //@   trusted
 //@   modifies nothing
-//@   ensures isnil(ret1) ==> 0 <= ret0 && ret0 <= 29
+//@   ensures isnil(ret1) ==> 0 <= ret0 && ret0 <= 29 && ret0 == dtOf(s)
 //@ func directive.NewWithCallStack
 //@   inline
 
@@ -161,6 +163,11 @@ package core
 //@   ensures ret == nil ==> fresh(core.currentDirective) && DirWF(core.currentDirective) && core.currentDirective.keywordCoords == keywordCoords
 //@        && core.currentDirective.Parent == nil && len(core.currentDirective.Children) == 0 && !core.currentDirective.HasExplicitContext
 //@   ensures [C02] ret != nil ==> ret.file == keywordCoords.file && ret.index == keywordCoords.begin
+// C18: a directive of a banned kind is refused where it is written (root file, included file, macro body - pasted or
+// not), at its keyword, before any parameter is read and with nothing changed; every directive that is created is of a
+// kind that is not banned (so the copies made by PASTE are not either).
+//@   ensures [C18] old(has(core.bannedDirectives, dtOf(keyword))) ==> ret != nil && ret.file == keywordCoords.file && ret.index == keywordCoords.begin && unchanged() && ioCount == old(ioCount)
+//@   ensures [C18] ret == nil ==> core.currentDirective.type_ == dtOf(keyword) && !has(core.bannedDirectives, core.currentDirective.type_)
 
 //@ func (*JApiCore).processKeyword
 //@   tag C01 C02 C06
@@ -274,7 +281,7 @@ package core
 
 // The banned set is consulted only where a directive kind is consumed (C18 "the option changes nothing else":
 // any other function reading it fails this frame scan by name).
-//@ readers [C18] JApiCore.bannedDirectives : (*JApiCore).addDirective, (*JApiCore).processInclude, (*JApiCore).addMacro, (*JApiCore).processPasteDirective, WithBannedDirectives$1
+//@ readers [C18] JApiCore.bannedDirectives : (*JApiCore).setCurrentDirective, (*JApiCore).addDirective, (*JApiCore).processInclude, (*JApiCore).addMacro, (*JApiCore).processPasteDirective, WithBannedDirectives$1
 //@ writers [C18] JApiCore.bannedDirectives : WithBannedDirectives$1
 
 // C06 frame scan: the tree links and the context cursor are written only by functions under contract
